@@ -29,7 +29,7 @@ LEVEL_TEXT = (
 LEVEL_NOTE = "Trusted: plain-tree equality as 'equal documents'. The oracle is differential: merged step vs. the sequence it replaces."
 TECHNIQUE = "property-based differential testing (Hypothesis): merged step vs sequential application"
 BUDGET = {
-    "quick": {"shards": 8, "examples": 1000},
+    "quick": {"shards": 8, "examples": 1600},
     "thorough": {"shards": 16, "examples": 25000},
 }
 FLOORS = {"merged": (800, 20000)}
@@ -110,6 +110,16 @@ def generate(R: Draw, tier: str) -> dict:
         if R.bool(0.3):
             c = b  # touching
             d = R.int(c, min(n, c + R.int(0, 6)))
+        elif R.bool(0.5):
+            # both ranges inside one stretch of inline content, overlapping in every relative position (second
+            # before / inside / around / after the first) so that every character matters
+            tbs = [(s_ + 1, s_ + k_.size - 1) for k_, s_, _par, _i, _d in RR_all(doc, rs) if rs.textblock.get(k_.t) and k_.size > 3]
+            if tbs:
+                lo, hi = R.choice(tbs)
+                a = R.int(lo, hi)
+                b = R.int(a, hi)
+                c = R.int(lo, b)
+                d = R.int(max(c, a), hi)
         k1 = R.choice(["addMark", "removeMark"])
         k2 = k1 if R.bool(0.8) else R.choice(["addMark", "removeMark"])
         if m2 != m1 and m2[0] == m1[0] and R.bool(0.7):
